@@ -139,6 +139,9 @@ MonitorStep(e) ==
                               \cup ParkViol(e, mlive, [mx EXCEPT ![t] = -1], mcw)
          ELSE /\ UNCHANGED <<mlive, mx, mseen, mcanc, mcw>>
               /\ viol' = viol \cup panicV \cup ParkViol(e, mlive, mx, mcw)
+    [] e.a = "Wreg" ->              \* registered as waiter, lock released: parked
+         /\ UNCHANGED <<mlive, mx, mseen, mcanc, mcw>>
+         /\ viol' = viol \cup panicV \cup ParkViol(e, mlive, mx, mcw)
     [] OTHER ->
          /\ UNCHANGED <<mlive, mx, mseen, mcanc, mcw>>
          /\ viol' = viol \cup V("unknown-record", FALSE)
@@ -150,7 +153,7 @@ MonitorQuiescent(e) ==
 
 (* ---- conformance with the design spec ---------------------------------- *)
 DesignReset ==
-  /\ db' = (0 :> NoNext) /\ tail' = 0 /\ cache' = << >> /\ waiting' = {}
+  /\ db' = (0 :> NoNext) /\ tail' = 0 /\ cache' = << >> /\ waiting' = {} /\ holder' = 0
   /\ cancelled' = [t \in Threads |-> FALSE]
   /\ x' = [t \in Threads |-> 0] /\ cur' = [t \in Threads |-> 0]
   /\ live' = {} /\ maxAdded' = 0
@@ -169,9 +172,14 @@ PostMatches(e) ==
   /\ db' = SeqToFun(e.keys, e.next)
   /\ e.bad = <<>>
   /\ tail' = e.tail /\ e.tailnext = NoNext
-  /\ cache' = SeqToFun(e.ckeys, e.cnext)
+     \* (while another thread is at an inner scheduling point of a critical section
+     \* whose record is written when it ends, the cache may be half way there)
+  /\ e.inner = 0 => cache' = SeqToFun(e.ckeys, e.cnext)
   /\ waiting' = ToSet(e.parked)
-  /\ {t \in Threads : pc'[t] = "W"} \ waiting' = ToSet(e.runnable)
+  /\ {t \in Threads : pc'[t] \in {"W", "Wreg"}} \ waiting' = ToSet(e.runnable)
+  /\ holder' = e.holder
+     \* whether InterruptGetNext broadcasts with messagesMu held is observed, not assumed
+  /\ (mode = "sched" /\ e.a = "Interrupt") => e.locked = LockedInterrupt
   /\ RetMatches(e)
 
 HistIs(t, a, arg) ==
@@ -181,6 +189,7 @@ DesignStep(e) ==
   /\ e.t \in Threads
   /\ IF e.a = "W" \/ (e.a = "GetNext" /\ pc[e.t] = "W")   \* second case: after SilentR1
        THEN W(e.t) /\ HistIs(e.t, "W", 0)
+       ELSE IF e.a = "Wreg" THEN Wreg(e.t) /\ HistIs(e.t, "Wreg", 0)
        ELSE Start(e.t) /\ HistIs(e.t, e.a, e.arg)
   /\ PostMatches(e)
 
